@@ -14,7 +14,7 @@ EXPLANATION = (
     "survivors unconditionally; the mask cleaner pairs tomogram i of the checked list with mask i, tests both sides of "
     "the mask bounds, looks the mask up at (c0,c1,c2), removes exactly the zero-valued voxels' particles, and maps the "
     "positions found in the bounds-filtered array back to the unfiltered subset before using them as labels (row-space "
-    "typing). Survivors are never written to.")
+    "typing); the voxel of a position is its floor (a position between -1 and 0 is outside the volume, not voxel 0). Survivors are never written to.")
 ASSUMPTIONS = TRUSTED + ["which voxel a 1-based position sits on, and whether bounds are inclusive, is left open by the statement: "
                          "direction and presence of both sides are decided, not strictness"]
 
